@@ -834,3 +834,224 @@ pub fn run(args: &Args, rep: &mut Report) {
     }
     rep.add("prehash_buckets", b.seen.len() as u64);
 }
+
+/// Replay a recorded case of this engine from its data: the deterministic checks that apply to a value of the
+/// recorded kind (encoding against the documented layout, address against SHA-256 of the own encoding, helper
+/// agreement, order independence under 20 permutations, round trips, `node_edges` for every index).
+pub fn replay(case: &serde_json::Value, rep: &mut Report) {
+    crate::vmcase::install_panic_hook();
+    let what = case.get("what").and_then(|w| w.as_str()).unwrap_or("");
+    let value = case.get("value").cloned().unwrap_or_default();
+    let mut r = Rng::new(0xf0a7);
+    let c = || case.clone();
+    match what {
+        "predicate" => {
+            let Ok(p) = serde_json::from_value::<Predicate>(value) else {
+                rep.inconclusive.push("cannot read the recorded predicate".into());
+                return;
+            };
+            let own = own_predicate_bytes(&p);
+            match catch(|| (p.encode().map(|i| i.collect::<Vec<u8>>()), p.encoded_size(), content_addr(&p), p.content_address())) {
+                Err(e) => rep.violation("C17", "panic", format!("predicate hashing panicked: {e}"), c()),
+                Ok((enc, size, a1, a2)) => {
+                    match enc {
+                        Ok(enc) => {
+                            if enc != own {
+                                rep.violation("C17", "predicate-encoding", "encode() differs from the documented encoding".into(), c());
+                            }
+                            if size != enc.len() {
+                                rep.violation("C17", "encoded-size", format!("encoded_size() = {size}, encode() yields {} bytes", enc.len()), c());
+                            }
+                            match catch(|| Predicate::decode(&enc)) {
+                                Ok(Ok(back)) if back == p => {}
+                                other => rep.violation("C18", "predicate-roundtrip", format!("decode(encode(p)) = {other:?}"), c()),
+                            }
+                        }
+                        Err(e) => {
+                            if p.nodes.len() <= 1000 && p.edges.len() <= 1000 {
+                                rep.violation("C17", "predicate-encoding", format!("predicate within limits failed to encode: {e:?}"), c());
+                            }
+                        }
+                    }
+                    if p.nodes.len() <= 1000 && p.edges.len() <= 1000 && (a1.0 != sha(&own) || a1 != a2) {
+                        rep.violation("C17", "predicate-address", "content address is not SHA-256 of the documented encoding (or helpers disagree)".into(), c());
+                    }
+                }
+            }
+            for i in 0..p.nodes.len() + 2 {
+                match catch(|| p.node_edges(i).map(|e| e.to_vec())) {
+                    Ok(real) if real == own_node_edges(&p, i) => {}
+                    other => rep.violation("C18", "node-edges", format!("node_edges({i}) = {other:?}, documented slice = {:?}", own_node_edges(&p, i)), c()),
+                }
+            }
+            for _ in 0..50 {
+                let q = perturb_predicate(&mut r, &p);
+                if let (Ok(e1), Ok(e2)) = (p.encode().map(|i| i.collect::<Vec<u8>>()), q.encode().map(|i| i.collect::<Vec<u8>>())) {
+                    if e1 == e2 || content_addr(&q) == content_addr(&p) {
+                        rep.violation("C17", "not-injective", format!("a perturbed predicate hashes the same bytes: {q:?}"), c());
+                        break;
+                    }
+                }
+            }
+        }
+        "program" => {
+            let bytes = value.as_str().and_then(|s| hex::decode(s).ok()).unwrap_or_default();
+            let prog = Program(bytes);
+            if content_addr(&prog).0 != sha(&prog.0) || prog.content_address() != content_addr(&prog) {
+                rep.violation("C17", "program-address", "program address is not SHA-256 of its bytes".into(), c());
+            }
+        }
+        "contract" => {
+            let Ok(ct) = serde_json::from_value::<Contract>(value) else {
+                rep.inconclusive.push("cannot read the recorded contract".into());
+                return;
+            };
+            let addr = content_addr(&ct);
+            if addr.0 != own_contract_addr(&ct) {
+                rep.violation("C17", "contract-address", "contract address is not SHA-256(sorted predicate addresses || salt)".into(), c());
+            }
+            let paddrs: Vec<ContentAddress> = ct.predicates.iter().map(content_addr).collect();
+            for _ in 0..20 {
+                let mut slice = paddrs.clone();
+                r.shuffle(&mut slice);
+                let mut c2 = ct.clone();
+                r.shuffle(&mut c2.predicates);
+                if contract_addr::from_contract(&ct) != addr
+                    || contract_addr::from_predicate_addrs(paddrs.iter().cloned(), &ct.salt) != addr
+                    || contract_addr::from_predicate_addrs_slice(&mut slice, &ct.salt) != addr
+                    || ct.content_address() != addr
+                {
+                    rep.violation("C17", "helpers-disagree", "contract address helpers disagree".into(), c());
+                    break;
+                }
+                if content_addr(&c2) != addr {
+                    rep.violation("C17", "order-dependent", "contract address changes under permutation of predicates".into(), c());
+                    break;
+                }
+            }
+            // systematic single changes: one more copy / one fewer of each predicate, each salt byte, a perturbed member
+            let mut variants: Vec<Contract> = vec![];
+            for i in 0..ct.predicates.len().min(40) {
+                let mut v = ct.clone();
+                v.predicates.push(ct.predicates[i].clone());
+                variants.push(v);
+                let mut v = ct.clone();
+                v.predicates.remove(i);
+                variants.push(v);
+                let mut v = ct.clone();
+                v.predicates[i] = perturb_predicate(&mut r, &ct.predicates[i]);
+                variants.push(v);
+            }
+            for b in 0..32 {
+                let mut v = ct.clone();
+                v.salt[b] ^= 1 << (b % 8);
+                variants.push(v);
+            }
+            let key = |x: &Contract| {
+                let mut m: Vec<_> = x.predicates.iter().map(own_predicate_bytes).collect();
+                m.sort();
+                (m, x.salt)
+            };
+            for v in variants {
+                if key(&v) != key(&ct) && content_addr(&v) == addr {
+                    rep.violation("C17", "not-injective", format!("a different contract has the same address: {v:?}"), c());
+                    break;
+                }
+            }
+        }
+        "solution" => {
+            let Ok(sol) = serde_json::from_value::<Solution>(value) else {
+                rep.inconclusive.push("cannot read the recorded solution".into());
+                return;
+            };
+            let own = own_postcard_solution(&sol);
+            if essential_hash::serialize(&sol) != own {
+                rep.violation("C17", "solution-encoding", "postcard pre-hash bytes differ from the harness' own writer".into(), c());
+            }
+            if content_addr(&sol).0 != sha(&own) || sol.content_address() != content_addr(&sol) || essential_hash::hash(&sol) != sha(&own) {
+                rep.violation("C17", "solution-address", "solution address is not SHA-256 of its postcard bytes".into(), c());
+            }
+            for _ in 0..50 {
+                let s2 = perturb_solution(&mut r, &sol);
+                if essential_hash::serialize(&s2) == essential_hash::serialize(&sol) || content_addr(&s2) == content_addr(&sol) {
+                    rep.violation("C17", "not-injective", format!("a perturbed solution hashes the same bytes: {s2:?}"), c());
+                    break;
+                }
+            }
+            if let Err(e) = rt_json(&sol).and(rt_postcard(&sol)) {
+                rep.violation("C18", "serde-roundtrip", format!("Solution: {e}"), c());
+            }
+        }
+        "set" => {
+            let Ok(set) = serde_json::from_value::<SolutionSet>(value) else {
+                rep.inconclusive.push("cannot read the recorded solution set".into());
+                return;
+            };
+            let addr = content_addr(&set);
+            if addr.0 != own_set_addr(&set) {
+                rep.violation("C17", "set-address", "set address is not SHA-256(sorted solution addresses)".into(), c());
+            }
+            let saddrs: Vec<ContentAddress> = set.solutions.iter().map(content_addr).collect();
+            for _ in 0..20 {
+                let mut slice = saddrs.clone();
+                r.shuffle(&mut slice);
+                let mut set2 = set.clone();
+                r.shuffle(&mut set2.solutions);
+                if solution_set_addr::from_set(&set) != addr
+                    || solution_set_addr::from_solution_addrs(saddrs.iter().cloned()) != addr
+                    || solution_set_addr::from_solution_addrs_slice(&mut slice) != addr
+                    || set.content_address() != addr
+                {
+                    rep.violation("C17", "helpers-disagree", "set address helpers disagree".into(), c());
+                    break;
+                }
+                if content_addr(&set2) != addr {
+                    rep.violation("C17", "order-dependent", "set address changes under permutation of solutions".into(), c());
+                    break;
+                }
+            }
+            let mut variants: Vec<SolutionSet> = vec![];
+            for i in 0..set.solutions.len().min(40) {
+                let mut v = set.clone();
+                v.solutions.push(set.solutions[i].clone());
+                variants.push(v);
+                let mut v = set.clone();
+                v.solutions.remove(i);
+                variants.push(v);
+                let mut v = set.clone();
+                v.solutions[i] = perturb_solution(&mut r, &set.solutions[i]);
+                variants.push(v);
+            }
+            let key = |x: &SolutionSet| {
+                let mut m: Vec<_> = x.solutions.iter().map(own_postcard_solution).collect();
+                m.sort();
+                m
+            };
+            for v in variants {
+                if key(&v) != key(&set) && content_addr(&v) == addr {
+                    rep.violation("C17", "not-injective", "a different solution set has the same address".into(), c());
+                    break;
+                }
+            }
+        }
+        "mutations" => {
+            let Ok(ms) = serde_json::from_value::<Vec<Mutation>>(value) else {
+                rep.inconclusive.push("cannot read the recorded mutations".into());
+                return;
+            };
+            let enc: Vec<Word> = encode::encode_mutations(&ms).collect();
+            match catch(|| decode::decode_mutations(&enc)) {
+                Ok(Ok(back)) if back == ms => {}
+                other => rep.violation("C18", "mutations-roundtrip", format!("decode_mutations(encode_mutations(ms)) = {other:?}"), c()),
+            }
+            for m in &ms {
+                let e: Vec<Word> = m.encode().collect();
+                let own: Vec<Word> = [m.key.len() as Word].into_iter().chain(m.key.iter().copied()).chain([m.value.len() as Word]).chain(m.value.iter().copied()).collect();
+                if e != own || e.len() != m.encode_size() || Mutation::decode_mutation(&e).ok().as_ref() != Some(m) {
+                    rep.violation("C18", "mutation-roundtrip", "single mutation round trip / layout / encode_size".into(), c());
+                }
+            }
+        }
+        other => rep.inconclusive.push(format!("a recorded '{other}' case of the formats engine cannot be replayed from data; its value is in the replay file")),
+    }
+}
